@@ -21,6 +21,17 @@
 (*              "iox2://", at most 255 bytes                               *)
 (*   NodeName   chars: none of nul hi, at most 128 bytes (may be empty)    *)
 (*   RFileName2 RestrictedFileName<2>: a FileName of at most 2 bytes       *)
+(*   Str8       StaticString<8>, the plain string below all of them: chars *)
+(*              none of nul hi, at most 8 bytes (may be empty)             *)
+(*                                                                         *)
+(* Entry points.  A value can be constructed through many public paths     *)
+(* (`via`): new, from_c_str, TryFrom/TryInto/FromStr, serde, conversions    *)
+(* between the types, from_bytes(_truncated) ...  The rules do not depend  *)
+(* on the entry point; what differs is only which byte string the caller   *)
+(* hands over (`Input`): a C string ends at its first NUL, the documented  *)
+(* `*_truncated` constructors of StaticString look at the first CAPACITY   *)
+(* bytes only.  Everything else must be judged on the whole argument: a    *)
+(* too long argument is an error, never a silently shortened name.         *)
 (***************************************************************************)
 EXTENDS Naturals, Sequences, FiniteSets
 
@@ -43,9 +54,9 @@ Rep(c) == CASE c = "nul" -> 0 [] c = "ctl" -> 7 [] c = "slash" -> 47 [] c = "dot
             [] c = "bsl" -> 92 [] c = "fp" -> 42 [] c = "colon" -> 58 [] c = "asc" -> 97
             [] c = "hi" -> 200
 
-Types == {"FileName", "Path", "FilePath", "ServiceName", "NodeName", "RFileName2"}
+Types == {"FileName", "Path", "FilePath", "ServiceName", "NodeName", "RFileName2", "Str8"}
 
-Cap(ty) == CASE ty = "NodeName" -> 128 [] ty = "RFileName2" -> 2 [] OTHER -> 255
+Cap(ty) == CASE ty = "NodeName" -> 128 [] ty = "RFileName2" -> 2 [] ty = "Str8" -> 8 [] OTHER -> 255
 
 Dot == 46
 Slash == 47
@@ -86,26 +97,88 @@ ContentOk(ty, s) ==
       [] ty = "FilePath"    -> ValidFilePath(s)
       [] ty = "ServiceName" -> ValidServiceName(s)
       [] ty = "NodeName"    -> ValidNodeName(s)
+      [] ty = "Str8"        -> CharsOk(s, {"nul", "hi"})
 
 \* accepted exactly when the documented rules hold
 Valid(ty, s) == Len(s) <= Cap(ty) /\ ContentOk(ty, s)
 
 \* ------------------------------------------------------------------------
-\* editing operations on a semantic string holding s: the candidate result
+\* entry points: the byte string a constructor has to judge
+MinOf(S) == CHOOSE x \in S : \A y \in S : x <= y
 SubSeqSafe(s, a, b) == IF a > b THEN <<>> ELSE SubSeq(s, a, b)
+UntilNul(s) == LET z == {i \in 1..Len(s) : s[i] = 0} IN IF z = {} THEN s ELSE SubSeqSafe(s, 1, MinOf(z) - 1)
+
+CStrVias == {"from_c_str"}                                       \* the argument is a zero terminated C string
+TruncVias == {"from_bytes_truncated", "from_str_truncated"}      \* documented: only the first CAPACITY bytes count
+Input(ty, via, arg) ==
+    IF via \in CStrVias THEN UntilNul(arg)
+    ELSE IF via \in TruncVias THEN SubSeqSafe(arg, 1, IF Len(arg) < Cap(ty) THEN Len(arg) ELSE Cap(ty))
+    ELSE arg
+
+\* The documentation of ServiceName::new forbids the internal prefix "iox2://"; TryInto<ServiceName> and the serde
+\* path (which must be able to read the static configuration of internal services back) are not documented: for a
+\* name that is valid apart from that prefix the statement is silent there and either verdict is acceptable.
+InternalVias == {"try_into", "serde_json"}
+Unspecified(ty, via, s) ==
+    /\ ty = "ServiceName" /\ via \in InternalVias
+    /\ HasPrefix(s, Iox2Prefix) /\ Len(s) <= Cap(ty) /\ CharsOk(s, {"nul", "hi"})
+
+\* ------------------------------------------------------------------------
+\* editing operations on a semantic string holding s: the candidate result
 Insert(s, idx, bytes) == SubSeqSafe(s, 1, idx) \o bytes \o SubSeqSafe(s, idx + 1, Len(s))    \* idx 0-based
 RemoveAt(s, idx) == SubSeqSafe(s, 1, idx) \o SubSeqSafe(s, idx + 2, Len(s))               \* idx 0-based
+RemoveRange(s, idx, n) == SubSeqSafe(s, 1, idx) \o SubSeqSafe(s, idx + n + 1, Len(s))      \* idx 0-based
 Truncate(s, n) == IF n < Len(s) THEN SubSeqSafe(s, 1, n) ELSE s
+Without(s, bytes) == LET drop == {bytes[i] : i \in 1..Len(bytes)} IN SelectSeq(s, LAMBDA b : b \notin drop)
+JoinPath(p, f) == IF p = <<>> \/ p[Len(p)] = Slash THEN p \o f ELSE p \o <<Slash>> \o f
 
-\* op = [a, idx, arg]; result = [r, s]  with r in "ok" | "err" | "true" | "false" | "none"
+\* components separated by '/' (possibly empty ones)
+Split(s) ==
+    LET F[i \in 0..Len(s)] ==
+          IF i = 0 THEN <<<<>>>>
+          ELSE IF s[i] = Slash THEN Append(F[i - 1], <<>>)
+          ELSE [F[i - 1] EXCEPT ![Len(F[i - 1])] = Append(@, s[i])]
+    IN F[Len(s)]
+
+JoinWith(comps, sep) ==
+    LET J[i \in 0..Len(comps)] == IF i = 0 THEN <<>> ELSE IF i = 1 THEN comps[1] ELSE J[i - 1] \o sep \o comps[i]
+    IN J[Len(comps)]
+
+\* Path::normalize: no empty and no "." components, a leading separator is kept, none at the end
+Normalize(s) ==
+    (IF s # <<>> /\ s[1] = Slash THEN <<Slash>> ELSE <<>>)
+    \o JoinWith(SelectSeq(Split(s), LAMBDA c : c # <<>> /\ c # <<Dot>>), <<Slash>>)
+
+\* what the accessors of an accepted value have to deliver
+LastComponent(s) == LET c == Split(s) IN c[Len(c)]
+DirPart(s) ==       \* FilePath::path(): everything before the last separator, "/" for a file directly under the root
+    LET c == Split(s) IN
+    IF Len(c) = 1 THEN <<>>
+    ELSE LET d == SubSeqSafe(s, 1, Len(s) - Len(c[Len(c)]) - 1) IN IF d = <<>> THEN <<Slash>> ELSE d
+Entries(s) == JoinWith(SelectSeq(Split(s), LAMBDA c : c # <<>>), <<0>>)
+
+Observe(ty, s, a) ==
+    CASE a = "file_name" -> LastComponent(s)
+      [] a = "path"      -> DirPart(s)
+      [] a = "entries"   -> Entries(s)
+      [] a = "normalize" -> Normalize(s)
+      [] OTHER           -> s           \* as_c_str, serialize, to_string, as_str: the content itself
+ObserveOps == {"file_name", "path", "entries", "normalize", "as_c_str", "serialize", "to_string"}
+
+\* op = [a, via, idx, idx2, arg, arg2]; result = [r, s, alt]  with r in "ok" | "err" | "true" | "false" | "none";
+\* alt: further contents that are acceptable after an error (see add_path_entry)
 Apply(ty, s, op) ==
-    LET done(r, t) == [r |-> r, s |-> t]
+    LET done(r, t) == [r |-> r, s |-> t, alt |-> {}]
         try(r, t) == IF Valid(ty, t) THEN done(r, t) ELSE done("err", s)
     IN
-    CASE op.a = "new"          -> try("ok", op.arg)
+    CASE op.a = "new"          -> try("ok", Input(ty, op.via, op.arg))
+      [] op.a = "from_path_and_file" -> try("ok", JoinPath(op.arg, op.arg2))
+      [] op.a = "new_normalized" -> IF Valid(ty, op.arg) THEN done("ok", Normalize(op.arg)) ELSE done("err", s)
       [] op.a = "push"         -> try("ok", s \o op.arg)
       [] op.a = "insert"       -> try("ok", Insert(s, op.idx, op.arg))
       [] op.a = "remove"       -> try("ok", RemoveAt(s, op.idx))
+      [] op.a = "remove_range" -> try("ok", RemoveRange(s, op.idx, op.idx2))
+      [] op.a = "retain"       -> try("ok", Without(s, op.arg))
       [] op.a = "pop"          -> IF s = <<>> THEN done("none", s) ELSE try("ok", RemoveAt(s, Len(s) - 1))
       [] op.a = "truncate"     -> try("ok", Truncate(s, op.idx))
       [] op.a = "strip_prefix" -> IF HasPrefix(s, op.arg)
@@ -114,6 +187,16 @@ Apply(ty, s, op) ==
       [] op.a = "strip_suffix" -> IF HasSuffix(s, op.arg)
                                   THEN try("true", SubSeqSafe(s, 1, Len(s) - Len(op.arg)))
                                   ELSE done("false", s)
+      \* Path::add_path_entry appends a separator (unless empty / already there) and the entry.  The documentation
+      \* does not say what a FAILING call leaves behind; the separator alone (still a valid path that normalizes to
+      \* the same path) is tolerated.
+      [] op.a = "add_path_entry" ->
+            LET t == JoinPath(s, op.arg) IN
+            IF Valid(ty, t) THEN done("ok", t)
+            ELSE [r |-> "err", s |-> s, alt |-> IF Valid(ty, s \o <<Slash>>) THEN {s \o <<Slash>>} ELSE {}]
+EditOps == {"push", "insert", "remove", "remove_range", "retain", "pop", "truncate", "strip_prefix", "strip_suffix",
+            "add_path_entry"}
+CtorOps == {"new", "from_path_and_file", "new_normalized"}
 
 \* ------------------------------------------------------------------------
 \* safety lemmas (checked by TLC over all class strings up to length 4, MC_Names)
@@ -122,13 +205,6 @@ NoEscape(s) ==      \* what an accepted file name can never be or contain
     /\ s # <<Dot>> /\ s # <<Dot, Dot>> /\ s # <<>>
 
 \* lexical resolution of a path: components separated by '/', "." skipped, ".." pops
-Split(s) ==     \* sequence of components (possibly empty ones)
-    LET F[i \in 0..Len(s)] ==
-          IF i = 0 THEN <<<<>>>>
-          ELSE IF s[i] = Slash THEN Append(F[i - 1], <<>>)
-          ELSE [F[i - 1] EXCEPT ![Len(F[i - 1])] = Append(@, s[i])]
-    IN F[Len(s)]
-
 Resolve(s) ==
     LET comps == Split(s)
         G[i \in 0..Len(comps)] ==
